@@ -12,7 +12,7 @@ def run(tier, seed):
             'SQLite file; responses, error classes and stored data compared pairwise after every step and with the model; '
             'non-trivial = at least 3 successful calls'),
       monitors=[], backends=('ram', 'sqlmem', 'sqlfile'), compare_backends=True,
-      profile={'delete_study': 0.07, 'owner2': 0.15, 'warmup': 0.6}, nseq_quick=50, nseq_thorough=500, extra=long_studies, pre=regenerate_ram_shapes,
+      profile={'delete_study': 0.07, 'owner2': 0.15, 'warmup': 0.6}, nseq_quick=50, nseq_thorough=500, extra=lambda rep, tier, seed, known, r: _both(_both(long_studies(rep, tier, seed, known, r), malformed_trial_ids(rep, tier, seed, known, r)), _both(many_trials(rep, tier, seed, known, r), write_then_rollback(rep, tier, seed, known, r))), pre=regenerate_ram_shapes,
       trusted_extra=['harness/translate/ramshape.py (Python-ast translator of the 20 NestedDictRAMDataStore methods into rows of structural facts, fail-closed)'])
 
 
@@ -24,6 +24,117 @@ def regenerate_ram_shapes():
     return None
   except Exception as e:  # pylint: disable=broad-except
     return 'translator harness/translate/ramshape.py refused ram_datastore.py: %r' % (e,)
+
+
+def _both(a, b):
+  return (((a[0] or '') + ' ' + (b[0] or '')).strip() or None), (a[1] or b[1])
+
+
+def malformed_trial_ids(rep, tier, seed, known, r):
+  """UpdateMetadata whose delta names a trial by something that is not a positive integer ('0', 'abc', '-1', ''): refused on every
+  backend with the same error class, and - like an update naming a missing trial - it changes nothing, whatever the delta
+  carried before the bad item and whatever is written afterwards."""
+  import tempfile, shutil
+  from harness import svc, common as C
+  from vizier._src.service import vizier_service_pb2 as vs
+  broke, concrete = None, False
+  tmp = tempfile.mkdtemp(prefix='vz_', dir=C.VERIF + '/.scratch')
+  try:
+    for i in range(6 if tier == 'quick' else 40):
+      bad = ['0', 'abc', '-1', '1x', '00', '0'][i % 6]
+      pos = r.choice([0, 1, 2])
+      results = {}
+      for be in ('ram', 'sqlmem', 'sqlfile'):
+        td = tempfile.mkdtemp(dir=tmp)
+        serv, holder, proxy = svc.make_servicer(be, recycle=True, tmpdir=td)
+        for rpc in [('CreateStudy', 1, 1, False, 'SS_ACTIVE', [(1, True)]), ('SuggestTrials', 1, 1, 1, 2, ('deliver', [10, 20], [], []))]:
+          svc.apply_rpc(serv, holder, rpc)
+        before = svc.snapshot(serv)
+        req = vs.UpdateMetadataRequest(name=svc.study_name(1, 1))
+        items = [('', ('', 'sk', 0, 'sv')), ('1', ('', 'tk', 0, 'tv')), ('2', (':a', 'k', 0, 'w'))]
+        items.insert(pos, (bad, ('', 'bad', 0, 'x')))
+        for tid_, kv_ in items:
+          u = req.delta.add()
+          if tid_:
+            u.trial_id = tid_
+          u.metadatum.CopyFrom(svc.mk_kv(kv_))
+        try:
+          resp = serv.UpdateMetadata(req)
+          out = ('Done', 'error_details' if resp.error_details else 'ok')
+        except Exception as e:  # pylint: disable=broad-except
+          out = ('Failed', svc.classify(e))
+        after = svc.snapshot(serv)
+        # one more (successful) write, then read again: nothing of the refused call may surface
+        svc.apply_rpc(serv, holder, ('AddTrialMeasurement', 1, 1, 1, [(1, 1)]))
+        later = svc.snapshot(serv)
+        results[be] = (out, before == after, [n for _, n in (later[0] or [])][0]['study']['md'] if later[0] else None)
+        try:
+          serv.datastore._inner._connection.close()
+        except Exception:  # pylint: disable=broad-except
+          pass
+        shutil.rmtree(td, ignore_errors=True)
+      rep.case({'malformed_trial_id': bad, 'position_in_delta': pos, 'outcomes': {k: v[0] for k, v in results.items()}}, True)
+      rep.count('malformed_trial_id_' + bad)
+      obj = {'trial_id': bad, 'position_in_delta': pos, 'results': {k: [list(v[0]), v[1], v[2]] for k, v in results.items()}}
+      if len({v[0] for v in results.values()}) != 1:
+        concrete = True
+        rep.violation('UpdateMetadata naming a trial by %r ends differently on the backends' % bad, obj)
+      elif any(v[0][0] != 'Done' or v[0][1] != 'ok' for v in results.values()) and (not all(v[1] for v in results.values()) or any(v[2] for v in results.values())):
+        concrete = True
+        rep.violation('a refused UpdateMetadata (trial id %r) changed stored data on %s' % (bad, sorted(k for k, v in results.items() if not v[1] or v[2])), obj)
+  finally:
+    shutil.rmtree(tmp, ignore_errors=True)
+  return broke, concrete
+
+
+def many_trials(rep, tier, seed, known, r):
+  """Systematic: one study filled until its trial ids pass 10 (100 in the thorough tier), with queued REQUESTED trials spanning the
+  boundary handed out afterwards and listings in between (string-ordered vs numeric ids, on all three backends)."""
+  def seqgen(rr):
+    target = rr.choice([11, 13]) if tier == 'quick' else rr.choice([12, 23, 103])
+    seq = [('CreateStudy', 1, 1, False, 'SS_ACTIVE', [(1, True)])]
+    nxt = 1
+    while nxt <= target:
+      if rr.random() < 0.5:
+        seq.append(('CreateTrial', 1, 1, rr.randrange(100), 'REQUESTED', [], []))
+        nxt += 1
+      else:
+        c, count = rr.choice([1, 2, 3]), rr.choice([1, 2])
+        seq.append(('SuggestTrials', 1, 1, c, count, ('deliver', [rr.randrange(100) for _ in range(count + 1)], [], [])))
+        nxt += count + 1
+      if rr.random() < 0.3:
+        seq.append(('ListTrials', 1, 1))
+    for c in (1, 2, 3):
+      seq.append(('SuggestTrials', 1, 1, c, 3, ('deliver', [rr.randrange(100) for _ in range(3)], [], [])))
+    seq += [('ListTrials', 1, 1), ('ListOptimalTrials', 1, 1)]
+    return seq
+  return svcrun.service_part(rep, 'C07', r, tier, known, monitors=[], backends=('ram', 'sqlmem', 'sqlfile'), compare_backends=True,
+                             nseq_quick=2, nseq_thorough=8, tag='many', seqgen=seqgen)
+
+
+def write_then_rollback(rep, tier, seed, known, r):
+  """Systematic: every kind of acknowledged write directly followed by a call that fails half-way inside the datastore (a metadata
+  update naming a missing trial, a second creation of an existing study): the acknowledged write survives on every backend."""
+  def seqgen(rr):
+    i = seqgen.i
+    seqgen.i += 1
+    writes = [('CheckEarlyStop', True, 1, 1, 1, ('decide', [(1, True)], [], [])),
+              ('CheckEarlyStop', True, 1, 1, 2, ('decide', [(2, False), (1, True)], [(':a', 'k', 0, 'v')], [])),
+              ('CompleteTrial', 1, 1, 1, [(1, 2)], False), ('StopTrial', 1, 1, 2), ('AddTrialMeasurement', 1, 1, 1, [(1, 1)]),
+              ('SetStudyState', 1, 1, 'SS_INACTIVE'), ('UpdateMetadata', 1, 1, [('', 'u', 0, 'a')], [(1, ('', 'k', 0, 'v'))]),
+              ('CreateTrial', 1, 1, 33, 'REQUESTED', [], []), ('DeleteTrial', 1, 1, 2),
+              ('SuggestTrials', 1, 1, 2, 1, ('deliver', [44, 45], [(':a', 's', 0, 'x')], []))]
+    rollbacks = [('UpdateMetadata', 1, 1, [('', 'z', 0, 'z')], [(9, ('', 'k', 0, 'v'))]),
+                 ('UpdateMetadata', 1, 1, [], [(1, ('', 'k2', 0, 'w')), (8, ('', 'k', 0, 'v'))]),
+                 ('CreateStudy', 1, 1, False, 'SS_ACTIVE', [(1, True)]), ('CreateStudy', 1, 2, False, 'SS_ACTIVE', [(1, True)])]
+    w = writes[i % len(writes)]
+    rb = rollbacks[(i // len(writes)) % len(rollbacks)]
+    seq = [('CreateStudy', 1, 1, False, 'SS_ACTIVE', [(1, True)]), ('SuggestTrials', 1, 1, 1, 2, ('deliver', [10, 20], [], [])), w, rb,
+           ('ListTrials', 1, 1), ('GetStudy', 1, 1), ('CheckEarlyStop', False, 1, 1, 1, ('decide', [(1, False)], [], [])), rb, ('ListTrials', 1, 1)]
+    return seq
+  seqgen.i = 0
+  return svcrun.service_part(rep, 'C07', r, tier, known, monitors=[], backends=('ram', 'sqlmem', 'sqlfile'), compare_backends=True,
+                             nseq_quick=20, nseq_thorough=40, tag='wrb', seqgen=seqgen)
 
 
 def long_studies(rep, tier, seed, known, r):
